@@ -814,6 +814,18 @@ def seeds() -> Dict[str, List[bytes]]:
     _SEEDS['sig'] = [k.sign(b'msg', b'ssh-ed25519'),
                      r.sign(b'msg', b'rsa-sha2-256'),
                      e.sign(b'msg', b'ecdsa-sha2-nistp256')]
+    def _frame(body: bytes) -> bytes:
+        return u32(len(body)) + body
+
+    # replies of an SSH agent: identities answer (2 keys), sign response,
+    # failure, success
+    _SEEDS['agent'] = [
+        _frame(byte(12) + u32(2) + string(k.public_data) + string(b'one') +
+               string(r.public_data) + string(b'two')) +
+        _frame(byte(14) + string(_SEEDS['sig'][0])),
+        _frame(byte(12) + u32(1) + string(e.public_data) + string(b'')) +
+        _frame(byte(5)),
+        _frame(byte(5)), _frame(byte(6))]
     _SEEDS['text'] = [
         b'host ' + _SEEDS['pub'][0], b'@cert-authority *.x ' +
         _SEEDS['pub'][1], b'|1|AAAA|BBBB= ' + _SEEDS['pub'][0],
@@ -868,7 +880,7 @@ def run_parser(case) -> CaseResult:
                 'verify': sd['sig'], 'known_hosts': sd['text'],
                 'authorized_keys': sd['text'], 'sshsig': sd['sig'],
                 'read_lists': sd['priv'] + sd['pub'] + sd['cert'] +
-                sd['x509']}[target]
+                sd['x509'], 'agent_reply': sd['agent']}[target]
         data = mutate(pool[case['seed'] % len(pool)], case['edits'])
 
     labels = {'target:' + target, 'mutated' if case['seed'] is not None
@@ -968,6 +980,45 @@ def run_parser(case) -> CaseResult:
             ak = asyncssh.import_authorized_keys(text)
             ak.validate(memwire.key('c10-ed').convert_to_public(), 'h',
                         '1.2.3.4')
+            deep = True
+        elif target == 'agent_reply':
+            # what an agent (local socket, or forwarded from the peer) sends
+            # back: SSHAgentClient documents ValueError
+            ok_exc = (ValueError,)
+            import asyncio
+            from asyncssh.agent import SSHAgentClient
+
+            class _Writer:
+                def write(self, _data):
+                    pass
+
+                def close(self):
+                    pass
+
+                async def wait_closed(self):
+                    pass
+
+            class _FakeAgent:
+                async def open_agent_connection(self):
+                    reader = asyncio.StreamReader()
+                    reader.feed_data(data)
+                    reader.feed_eof()
+                    return reader, _Writer()
+
+            async def talk():
+                agent = SSHAgentClient(_FakeAgent())
+                try:
+                    keys = await agent.get_keys()
+                    for kp in list(keys)[:2]:
+                        await kp.sign_async(b'msg')
+                finally:
+                    agent.close()
+
+            loop = asyncio.new_event_loop()
+            try:
+                loop.run_until_complete(talk())
+            finally:
+                loop.close()
             deep = True
         elif target == 'read_lists':
             ok_exc = (KeyImportError, KeyEncryptionError)
@@ -1099,7 +1150,7 @@ PARSER_TARGETS = ['import_public_key', 'import_private_key',
                   'import_certificate', 'decode_ssh_public_key',
                   'decode_ssh_certificate', 'der_decode', 'sftp_attrs',
                   'sftp_name', 'packet', 'verify', 'known_hosts',
-                  'authorized_keys', 'read_lists']
+                  'authorized_keys', 'read_lists', 'agent_reply']
 
 
 def parser_strategy(tier: str):
